@@ -85,6 +85,12 @@ fn header_value(h: &str) -> Option<String> {
             Some(c)
         }
         "extended" => Some(format!("{}A", http::basic(USER, PASS))),
+        "token_case_folded" => {
+            let c = http::basic(USER, PASS);
+            let (scheme, token) = c.split_once(' ').unwrap_or(("Basic", ""));
+            assert_ne!(token, token.to_lowercase(), "the test credentials must have upper-case letters in their base64 form");
+            Some(format!("{} {}", scheme, token.to_lowercase()))
+        }
         _ => Some(http::basic(USER, PASS)),
     }
 }
